@@ -24,6 +24,7 @@ func init() {
 		Rule{ID: "R02a", Doc: "packLen of every record type equals the size its pack writes (the fit test `off + packLen() > size` relies on it; shared with C02)", Floor: 20, AllVariants: true, Run: r02a},
 		Rule{ID: "R02d", Doc: "the TC bit is encoded at its RFC 1035 position (shared with C02)", Floor: 10, AllVariants: true, Run: r02d},
 		Rule{ID: "R12e", Doc: "PopEDNS0 is a correct swap-remove (no nil record left, nothing after the OPT dropped)", Floor: 5, AllVariants: true, Run: r12e},
+		Rule{ID: "R02f", Doc: "a compression pointer is only recorded for an offset that fits 14 bits, tested per label (a pointer past 16383 lands in other bytes of a large TCP response; shared with C02)", Floor: 5, AllVariants: true, Run: r02f},
 	)
 }
 
